@@ -19,7 +19,7 @@ THEOREMS = [
 _FILES = ["harness/mqttproxy/zz_verif_c15_common_test.go", "harness/mqttproxy/zz_verif_c15_test.go"]
 HARNESSES = [
     dict(name="mqtt", pkg="pkg/object/mqttproxy", files=_FILES, run="TestVerifC15",
-         groups=["fan", "sess", "cpub"], timeout=900),
+         groups=["fan", "sess", "cpub"], timeout=420),
 ]
 GROUPS = {"fan": "(check_fan pinned)", "sess": "check_sess", "cpub": "check_cpub"}
 EXPLAIN = {"fan": "(explain_fan pinned)", "sess": "explain_sess", "cpub": "explain_cpub"}
